@@ -21,11 +21,11 @@ from vlib import VERIF
 #   mc: (exhaustive config module, quick?, timeout s)
 PIPE = {
     "C01": dict(clauses=["C01_"], sims=[("Sim_multi", 60, 600, 170), ("Sim_multi_crash", 40, 500, 170)], mc=[("MC_c01q", 400, "quick"), ("MC_c01", 1500, "thorough")]),
-    "C02": dict(clauses=["C02_"], sims=[("Sim_base", 50, 500, 150), ("Sim_conn", 50, 500, 150), ("Sim_multi", 20, 300, 170)], mc=[("MC_c02", 900, "both")], crashpoints=True),
+    "C02": dict(clauses=["C02_"], sims=[("Sim_base", 50, 500, 150), ("Sim_conn", 50, 500, 150), ("Sim_multi", 20, 300, 170)], mc=[("MC_c02", 900, "both"), ("MC_c07p", 2400, "thorough")], corpus=[("MC_c07p", 150, 2000)], crashpoints=True),
     "C04": dict(clauses=["C04_"], sims=[("Sim_conn", 80, 800, 150), ("Sim_rollback", 30, 400, 170)], mc=[("MC_c04q", 400, "quick"), ("MC_c04", 1500, "thorough")], data=True),
     "C05": dict(clauses=["C05_"], sims=[("Sim_base", 60, 600, 150), ("Sim_multi", 40, 400, 170)], mc=[("MC_c05", 900, "both")], data=True),
     "C06": dict(clauses=["C06_"], sims=[("Sim_rollback", 100, 1000, 170)], mc=[("MC_c06", 900, "both")], data=True),
-    "C07": dict(clauses=["C07_"], sims=[("Sim_crash", 80, 800, 150), ("Sim_multi_crash", 40, 400, 170)], mc=[("MC_c07", 900, "both")], crashpoints=True),
+    "C07": dict(clauses=["C07_"], sims=[("Sim_crash", 80, 800, 150), ("Sim_multi_crash", 40, 400, 170)], mc=[("MC_c07", 900, "both"), ("MC_c07p", 2400, "thorough")], corpus=[("MC_c07p", 150, 2000)], crashpoints=True),
     "C08": dict(clauses=["C08_"], sims=[("Sim_client", 90, 900, 150), ("Sim_base", 30, 300, 150), ("Sim_dev", 30, 300, 150), ("Sim_rollback", 20, 200, 170)], mc=[("MC_c08", 900, "both")]),
     "C09": dict(clauses=["C09_"], sims=[("Sim_base", 60, 800, 150), ("Sim_dev", 40, 400, 150), ("Sim_multi", 30, 300, 170), ("Sim_rbconn", 40, 400, 170)], mc=[("MC_c09", 900, "both"), ("MC_c09r", 900, "both")]),
     "C10": dict(clauses=["C10_"], sims=[("Sim_conn", 100, 1000, 150)], mc=[("MC_c10", 900, "both")]),
@@ -56,8 +56,28 @@ def export_behaviours(specdir, module, num, depth, sd, outdir, timeout=1200):
     return scs, gen, wall
 
 
+POLICIES = ["", "newest", "oldest"]
+
+
+def epilogue_of(pol, healfirst):
+    ep = [dict(st, pol=pol) if st["k"] == "drain" and pol else st for st in EPILOGUE]
+    return ep[1:] if healfirst else ep
+
+
+def epilogue(name):
+    """the order in which pending work is served once the behaviour ends is part of what is explored: seeded random,
+    newest log index first (work pending since a restart is served last), oldest first - chosen by the name"""
+    import zlib
+    h = zlib.crc32(("pol" + name).encode())
+    pol = POLICIES[h % 3]
+    ep = [dict(st, pol=pol) if st["k"] == "drain" and pol else st for st in EPILOGUE]
+    if (h // 3) % 2 == 1:
+        ep = ep[1:]   # the environment heals (process restarted, targets connected) before any pending work is served
+    return ep
+
+
 def normalise(b, name, sd):
-    steps = list(b["steps"]) + EPILOGUE
+    steps = list(b["steps"]) + epilogue(name)
     import zlib
     return {"name": name, "targets": sorted(b["targets"]), "seed": sd * 100003 + zlib.crc32(name.encode()) % 100000, "steps": steps,
             "noplugin": b.get("noplugin", []), "limit": b.get("limit", 0)}
@@ -138,8 +158,8 @@ def validate_batches(specdir, tracedir, names, clauses, drift, scenarios, batch=
         if bad or not accepted:
             raise vlib.Inconclusive("trace validation batch %d did not complete (%s rc=%s):\n%s" % (bi, bad, rc, out[-3000:]))
         viols = [(int(m.group(1)), re.findall(r'"([A-Za-z0-9_]+)"', m.group(2)))
-                 for m in re.finditer(r'<<"VIOLATION", (\d+), \{([^}]*)\}>>', out)]
-        drifts = [int(m.group(1)) for m in re.finditer(r'<<"DRIFT", (\d+)>>', out)]
+                 for m in re.finditer(r'<<\s*"VIOLATION",\s*(\d+),\s*\{([^}]*)\}\s*>>', out, re.S)]
+        drifts = [int(m.group(1)) for m in re.finditer(r'<<\s*"DRIFT",\s*(\d+)\s*>>', out)]
         for nm, a, b in index:
             per_trace[nm] = dict(lines=b - a + 1,
                                  viol=[(l - a, cs) for l, cs in viols if a <= l <= b],
@@ -194,7 +214,7 @@ def run_mc(specdir, module, timeout, workers=12):
     gen, dist = vlib.tlc_stats(out)
     # coverage-directed witnesses: shortest schedule per distinct reconcile context (OnosV2MC!Cover)
     cover = {}
-    for m in re.finditer(r'<<"COVER", (".*")>>', out):
+    for m in re.finditer(r'<<\s*"COVER",\s*(".*")\s*>>', out):
         try:
             j = json.loads(json.loads(m.group(1)))
         except ValueError:
@@ -202,7 +222,7 @@ def run_mc(specdir, module, timeout, workers=12):
         c = j["ctx"]
         if c not in cover or len(j["steps"]) < len(cover[c]["steps"]):
             cover[c] = j
-    out = re.sub(r'<<"COVER", ".*">>\n', "", out)
+    out = re.sub(r'<<\s*"COVER",\s*".*"\s*>>\n', "", out)
     res = dict(module=module, generated=gen, distinct=dist, wall_s=round(wall, 1), complete="Model checking completed" in out,
                violated=re.findall(r"Invariant (\w+) is violated|property (\w+) is violated", out), timed_out=(rc == -9))
     bad = vlib.tlc_failed(out)
@@ -282,6 +302,22 @@ def check(prop, tier, replay_file=None):
                     s = normalise(cex, "mc-cex-" + module, sd)
                     scenarios.append(s)
                     origin[s["name"]] = "must_replay"
+            # 1b. witnesses of exhaustive explorations that are too large for this tier: a committed corpus
+            #     (corpus/<module>.cover.json, written from a thorough-tier exploration of the same specification)
+            for module, nq, nt in conf.get("corpus", []):
+                cp = os.path.join(VERIF, "corpus", module + ".cover.json")
+                if not os.path.exists(cp) or any(r["module"] == module and r["complete"] for r in mc_results):
+                    continue
+                corp = json.load(open(cp))["contexts"]
+                ctxs = sorted(corp)
+                want = nq if tier == "quick" else nt
+                if len(ctxs) > want:
+                    ctxs = sorted(random.Random(sd).sample(ctxs, want))
+                for c in ctxs:
+                    s = normalise(corp[c], "corpus-%s-%s" % (module, hashlib.sha1(c.encode()).hexdigest()[:10]), sd)
+                    s["ctx"] = c
+                    scenarios.append(s)
+                    origin[s["name"]] = "corpus"
             # 2. behaviours from simulation
             for module, nq, nt, depth in conf["sims"]:
                 if not os.path.exists(os.path.join(specdir, module + ".cfg")):
@@ -501,7 +537,7 @@ def crashpoint_variants(scenarios, origin, tier, sd, tracedir):
     head, tail = base[:3], base[3:]
     rnd.shuffle(tail)
     base = head + tail[: (2 if tier == "quick" else 40)]
-    budget = 100 if tier == "quick" else 6000
+    budget = 120 if tier == "quick" else 12000
 
     def actor(st):
         if st["c"] == "prop":
@@ -524,15 +560,24 @@ def crashpoint_variants(scenarios, origin, tier, sd, tracedir):
             if st["k"] == "run" and st.get("c") in ("tx", "prop", "cfg", "mast"):
                 for j in range(1, n + 1):
                     points.append((s, real, k, j, n))
+    # ... x the schedule in which work resumes: which pending work is served first, and whether the environment heals
+    # (targets connected again) before or after the first of it
+    combos = [(pol, hf) for pol in POLICIES for hf in (False, True)]
+    points = [pt + (cb,) for pt in points for cb in (combos if tier != "quick" else [("newest", True)] + rnd.sample(combos[:-1], 1))]
     rnd.shuffle(points)
-    for s, real, k, j, n in points[:budget]:
+    # the crashes between the writes of one proposal reconcile (configuration and proposal are two records), resumed
+    # newest-first after the environment healed, are served first: they leave the most to be re-derived
+    points.sort(key=lambda pt: 0 if (pt[1][pt[2]][0].get("c") == "prop" and pt[3] < pt[4] and pt[5] == ("newest", True)
+                                     and origin.get(pt[0]["name"]) == "regress") else 1)
+    for s, real, k, j, n, (pol, hf) in points[:budget]:
         st = real[k][0]
         pre = [x for x, _ in real[:k]]
         if j == n:
             mid = [st, {"k": "crash"}, {"k": "restart"}]
         else:
             mid = [{"k": "begin", "c": st["c"], "id": st["id"]}] + [{"k": "exec", "a": actor(st)}] * j + [{"k": "crash"}, {"k": "restart"}]
-        v = dict(s, name="%s-x%03d-%d" % (s["name"], k, j), steps=pre + mid + EPILOGUE, seed=s["seed"] * 131 + k * 7 + j)
+        vname = "%s-x%03d-%d%s%s" % (s["name"], k, j, pol[:1] or "r", "h" if hf else "")
+        v = dict(s, name=vname, steps=pre + mid + epilogue_of(pol, hf), seed=s["seed"] * 131 + k * 7 + j)
         out.append(v)
         origin[v["name"]] = "crashpoint"
     return out
